@@ -49,7 +49,7 @@ PROP = Prop(
 )
 
 MANIFEST = dict(
-    category='proof',
+    category='other',
     text='Taint contract TP (a tainted argument yields a value that is still a TaintedString, or text in which no "<" can stem from the raw '
          'value) proved for every function in the modifier table and the special-format table of DT_Var as read on this run (html_quote, '
          'url_quote(_plus), url_unquote(_plus), newline_to_br, lower, upper, capitalize, spacify, thousands_commas, sql_quote, the dollar '
